@@ -98,6 +98,11 @@ CLAIMED["C14"]=dict(
    text="Exploration: 3k (quick) / 60k (thorough) rounds x 2/4/8 (16) OS threads x 3-7 (11) programs, GC stress period in {0,1,2,5,13} with quarantined sweeps, a spinning root collector in 2/3 of the rounds. No absence claim: interleavings are sampled by the OS scheduler, not enumerated.",
    note="default executor only (tokio VM not exercised); schedule perturbation hook H5 of the design was not needed so far and is not built; a stall is reported only when the worker consumed no CPU for 3 s",
    ref="6 C14")
+CLAIMED["C03"]=dict(
+   technique="property-based testing against an independent algorithm W: terms of the ML fragment from an untyped generator (let-polymorphism, rows), from typed-by-construction programs printed without annotations, and from AST mutants; W (levels, ordered closed rows, open rows) decides typability and the principal type; Gluon must accept what W types and report an equivalent type; metamorphic relations (renaming binders, unused binding, annotation with the printed type)",
+   text="Exploration: 8k (quick) / 400k (thorough) terms, 4 checker runs each for the terms W types (about 2/3). Four recorded known findings, all rooted in eager generalisation: pattern lets against a generalised right-hand side, separately generalised record/tuple fields that do not unify (also makes the reported type non-principal and the annotation relation fail), generalised match scrutinees, and open tuple rows printed in unparseable form.",
+   note="only W-typable terms are judged (the converse is not asserted); known findings are matched by features of the checker's error text (inner quantifier in a field, rigid variable vs concrete type, `(a | r)` rendering), anything else is a violation",
+   ref="6 C03")
 NOT_YET = {}
 def main():
     props=[json.loads(l) for l in open('/verif/properties.jsonl')]
